@@ -79,14 +79,14 @@ impl Property for C10 {
         }
     }
     fn rule(&self) -> &'static str {
-        "one case = generated project (builds, services, aggregates; 6% wide fan-in/fan-out beyond 2x the queue capacity) in one-shot or --watch mode + a seeded schedule. The run is first executed without interference (R0: N scheduling decisions), then ENUMERATED: the termination signal delivered at decision index k for every k in 1..N (quick tier: at most 96 evenly spaced k, thorough: all), and each build that ran made to fail; from the instant of the signal (or failure) every build/service script is frozen - it ends only if killed. Oracle: main returns (a stall = zinoma waiting for a script or a message that will never come), no build/service shell is left running or killed-but-unreaped, exit status 0 unless a target failed. distinct_nontrivial = distinct (order hash, k) among runs where the stop request arrived while at least one script was running"
+        "one case = generated project (builds, services, aggregates; 6% wide fan-in/fan-out beyond 2x the queue capacity) in one-shot or --watch mode + a seeded schedule. The run is first executed without interference (R0: N scheduling decisions), then ENUMERATED: the termination signal delivered at decision index k for every k in 1..N (quick tier: at most 96 evenly spaced k, 24 on graphs with more than 3000 decisions; thorough: up to 2000), and each build that ran made to fail; from the instant of the signal (or failure) every build/service script is frozen - it ends only if killed. Oracle: main returns (a stall = zinoma waiting for a script or a message that will never come), no build/service shell is left running or killed-but-unreaped, exit status 0 unless a target failed. distinct_nontrivial = distinct (order hash, k) among runs where the stop request arrived while at least one script was running"
     }
     fn assumptions(&self) -> Vec<&'static str> {
         vec!["promptness is decided without a clock: frozen scripts turn any wait for a script into an exactly detectable stall", "kill() reaches the shell zinoma spawned, as in reality; grandchildren are outside the statement"]
     }
     fn generate(&self, rng: &mut Rng, case_no: u64) -> Scenario {
-        // every 20th case is a wide graph (queues full while the signal arrives)
-        let force_wide = case_no % 20 == 3;
+        // the first eight cases (and every 20th later on) are wide graphs: started first, they overlap with the cheap cases (queues full while the signal arrives)
+        let force_wide = case_no < 8 || (case_no > 160 && case_no % 20 == 3);
         let watch = !force_wide && rng.chance(30);
         if watch {
             let mut sc = super::watch::gen_watch(rng, &super::watch::WatchOpts { max_bursts: 2, ..Default::default() });
@@ -165,7 +165,8 @@ impl Property for C10 {
         let n = r0.footer.as_ref().map(|f| f.decisions).unwrap_or(0);
         let choices = r0.footer.as_ref().map(|f| f.choices.clone()).unwrap_or_default();
         let mut ks: Vec<u64> = vec![];
-        let maxk = if thorough { 2_000 } else { 96 };
+        // wide graphs have tens of thousands of decisions and slow runs: fewer instants there
+        let maxk = if thorough { 2_000 } else if n > 3_000 { 24 } else { 96 };
         if n <= maxk {
             ks.extend(1..=n);
         } else {
